@@ -152,7 +152,8 @@ PROPS = {
             "transform_key precondition: RocksDB only passes keys of the column family (or bounds derived from them), whose 8-byte length field is < 2^64-8",
             "key images are prefix-free and injective (C12) -- used as hypothesis prefix_free_ty of the pair-injectivity lemmas",
             "operations layer (both backends): every method of `impl WriteBatch` and `impl SerializationBuffer` (put / delete / insert_member / delete_member / consume_serialization_buffer / should_write_more) is proved to issue exactly one backend operation on the column (type id, kind) of its column type with key = wide_key / member_key and value = the value image, the recorded path replays to the same operation sequence in order (replayed_all), and the size estimate never overflows under the stated precondition. Stand-ins: the backend batch (rust_rocksdb::WriteBatch / fjall::OwnedWriteBatch) is an ordered ghost log of operations; get_or_create_cf / get_or_create_keyspace return a handle that names (type id, kind) (DashMap cache + backend handles not under contract)",
-            "not under contract: get_or_create_cf* bodies, cf_name_from_id, commit (one backend write: trusted atomic), RocksDB's scan_members (self-referencing iterator built in a closure) and both ScanMembersIterator::next (their split arithmetic is lemma_member_split) -- covered by the real-backend bounded run; reopen",
+            "not under contract: get_or_create_cf* bodies, cf_name_from_id, commit (one backend write: trusted atomic), RocksDB's scan_members (self-referencing iterator built in a closure: its window is prefix_upper_bound's contract, its plumbing is not under contract) -- covered by the real-backend bounded run; reopen",
+            "member scans, element side: ScanMembersIterator::next of both backends (extracted as inherent fns, `Self::Item` resolved textually) decodes exactly the element part of the stored key lp(kb) ++ eb (8-byte length field, skip 8 + length, rule R17 decode). ASSUMPTION in the iterator stand-ins: every key stored in a key-of-set column is a member_key image with a key part shorter than 2^56 bytes (what the write paths are proved to write)",
             "readers under contract: get_wide_column of both backends reads exactly stored(W id, WideColumn, wide_key::<W,C>(key)) -- the same column and key bytes the writers use -- and returns the decoded image (rule R17: the PostcardDecoder-over-Cursor idiom becomes an opaque call carrying C12's Decode contract on a complete image); Fjall's scan_members enumerates exactly the prefix lp(key) of the keyspace (C id, KeyOfSet). `stored` is what the backend reports at the moment of the read (trusted); backend read errors are assumed not to occur (the code panics on them)",
         ],
     },
